@@ -278,6 +278,16 @@ Definition isinstance (v c : pv) : res pv :=
   | None => Stuck
   end.
 
+(* the dataclasses of beanquery.parser.ast the translated code constructs: their fields in declaration order
+   (parseinfo, keyword-only in practice and excluded from comparisons, is left out); compared with the fields of the
+   imported classes in Proofs/SrcLedgerPrint.v *)
+Definition ast_decls : list (string * list string) :=
+  [("beanquery.parser.ast.Select",
+    ["targets"; "from_clause"; "where_clause"; "group_by"; "order_by"; "pivot_by"; "limit"; "distinct"]);
+   ("beanquery.parser.ast.Match", ["left"; "right"]);
+   ("beanquery.parser.ast.Column", ["name"]);
+   ("beanquery.parser.ast.Constant", ["value"])].
+
 Definition ast_ctor (cls : string) (names : list string) (args : list pv) : res pv :=
   if Nat.eqb (length names) (length args) then Ok (obj cls (combine names args)) else Exc TypeError.
 
@@ -314,13 +324,10 @@ Definition prims_ledger (name : string) (args : list pv) : res pv :=
             end
         | _ => ext name args
         end
-      else if String.eqb name "beanquery.parser.ast.Select" then
-        ast_ctor "beanquery.parser.ast.Select"
-                 ["targets"; "from_clause"; "where_clause"; "group_by"; "order_by"; "pivot_by"; "limit"; "distinct"] args
-      else if String.eqb name "beanquery.parser.ast.Match" then ast_ctor "beanquery.parser.ast.Match" ["left"; "right"] args
-      else if String.eqb name "beanquery.parser.ast.Column" then ast_ctor "beanquery.parser.ast.Column" ["name"] args
-      else if String.eqb name "beanquery.parser.ast.Constant" then ast_ctor "beanquery.parser.ast.Constant" ["value"] args
-      else ext name args
+      else match find (fun d => String.eqb name (fst d)) ast_decls with
+           | Some d => ast_ctor (fst d) (snd d) args
+           | None => ext name args
+           end
   end
   end.
 End Prims.
